@@ -38,7 +38,7 @@ def finish(pid, prop, tier, seed, results, wall):
             o["job"] = r["job"]
             obs.append(o)
         if "function" in r:
-            functions.append({k: r.get(k) for k in ("function", "src", "src_hash", "src_lines", "paths", "cases", "wall_s", "inlined", "summarised", "dropped_calls")})
+            functions.append({k: r.get(k) for k in ("function", "src", "src_hash", "src_lines", "paths", "cases", "wall_s", "inlined", "summarised", "dropped_calls", "slice")})
     if not obs:
         guards.append("zero obligations generated (vacuous run)")
     refuted = [o for o in obs if o["result"] == "sat"]
